@@ -73,13 +73,15 @@ def _static_case(case, mon, sigs, hist, metrics):
     from fv.oracle import fb
     rng = np.random.default_rng(case["seed"])
     for _ in range(case["count"]):
-        fam = ["mob", "arc", "vor"][int(rng.integers(3))]
+        # axis-aligned lattices: in the reference pose tangents have exactly vanishing components, in the transformed one not
+        fam = ["mob", "arc", "vor", "mob", "arc", "vor", "lat-square", "lat-brick", "lat-hex"][int(rng.integers(9))]
         at0 = scen.base_tissue(rng, fam, ncells=int(rng.integers(8, 45)))
-        at0, _s = scen.maybe_sub(rng, at0, p=0.25, min_cells=5)
+        if not fam.startswith("lat-"):
+            at0, _s = scen.maybe_sub(rng, at0, p=0.25, min_cells=5)
         if not fb.internal_keys(at0):
             continue
         at1, (th, refl) = _transform(rng, at0, case["xf"])
-        ks = {k: int(rng.integers(0 if fam == "vor" else 1, 10)) for k in at0.E}
+        ks = {k: int(rng.integers(0 if fam in ("vor", "lat-square", "lat-brick", "lat-hex") else 1, 10)) for k in at0.E}
         fit = ["dlite", "taubinSVD"][int(rng.integers(2))]
         sseed = int(rng.integers(1 << 30))
         relabel = bool(rng.integers(2))
